@@ -113,6 +113,7 @@ type FuncContract struct {
 	Mode        string
 	Requires    []Clause
 	Ensures     []Clause
+	Accum       []Clause // 'accumulates': ensures that are closed under sequencing of calls
 	Modifies    []Clause
 	HasModifies bool
 	Loops       map[int]*LoopContract
@@ -159,7 +160,7 @@ func NewContractDB() *ContractDB {
 }
 
 var topKW = map[string]bool{"spec": true, "pred": true, "def": true, "lemma": true, "axiom": true, "func": true, "assumed": true, "interface": true, "region": true, "guarded": true, "props": true, "purepkg": true, "table": true, "ginv": true, "opaque": true}
-var clauseKW = map[string]bool{"requires": true, "ensures": true, "modifies": true, "nopanic": true, "nooverflow": true, "inline": true, "loop": true, "use": true, "mode": true, "by": true, "prop": true, "pure": true, "ghost": true, "nolocks": true, "writes": true, "writesonly": true, "trigger": true, "staged": true, "stagedinv": true, "reveal": true, "loopframes": true, "unreachable": true}
+var clauseKW = map[string]bool{"requires": true, "ensures": true, "modifies": true, "nopanic": true, "nooverflow": true, "inline": true, "loop": true, "use": true, "mode": true, "by": true, "prop": true, "pure": true, "ghost": true, "nolocks": true, "writes": true, "writesonly": true, "trigger": true, "staged": true, "stagedinv": true, "reveal": true, "loopframes": true, "unreachable": true, "accumulates": true}
 
 type rawItem struct {
 	kw      string
@@ -423,7 +424,7 @@ func (db *ContractDB) LoadContracts(path, pkgPath string) error {
 			fc := &FuncContract{RelName: rel, Name: qualify(pkgPath, rel), Pkg: pkgPath, Assumed: it.kw == "assumed" || it.kw == "interface", Iface: it.kw == "interface", Loops: map[int]*LoopContract{}, Props: props, File: it.file, Line: it.line}
 			for _, c := range it.clauses {
 				switch c.kw {
-				case "requires", "ensures", "modifies":
+				case "requires", "ensures", "modifies", "accumulates":
 					if c.kw == "modifies" {
 						fc.HasModifies = true
 						if strings.TrimSpace(c.text) == "nothing" {
@@ -446,6 +447,11 @@ func (db *ContractDB) LoadContracts(path, pkgPath string) error {
 					}
 					if c.kw == "requires" {
 						fc.Requires = append(fc.Requires, Clause{e, c.text, rv, cps})
+					} else if c.kw == "accumulates" {
+						// a postcondition of a callback that also holds across any run of
+						// calls that stops at the first non-nil result (accum.go)
+						fc.Ensures = append(fc.Ensures, Clause{e, c.text, rv, cps})
+						fc.Accum = append(fc.Accum, Clause{e, c.text, rv, cps})
 					} else {
 						fc.Ensures = append(fc.Ensures, Clause{e, c.text, rv, cps})
 					}
